@@ -186,32 +186,45 @@ def run_sysrun(ctx, bins, profile, seed, n, steps=60, procs=16, extra=()):
 SYS_HEADER = "From stdpp Require Import list.\nFrom Coq Require Import ZArith.\nFrom PV Require Import System Corr.SysCorr.\n"
 
 
-def replay_in_coq(ctx, hs, name="cases_sys", shards=16, prop_code=0):
-    """Returns {index_in_hs: (step, diff)} for the histories where model and implementation differ."""
+def replay_in_coq(ctx, hs, name="cases_sys", shards=16, prop_code=0, per_file=24):
+    """Returns {index_in_hs: (step, diff)} for the histories where model and implementation differ.
+    At most `per_file` histories per generated file (memory of one coqc grows with the file), `shards` coqc at a time."""
     terms = [history_term(h, i) for i, h in enumerate(hs)]
     if not terms:
         return {}
-    shards = max(1, min(shards, (len(terms) + 7) // 8))
-    procs = []
-    for k in range(shards):
-        part = terms[k::shards]
+    nfiles = max(1, (len(terms) + per_file - 1) // per_file)
+    files = []
+    for k in range(nfiles):
+        part = terms[k::nfiles]
         src = SYS_HEADER + "Definition cases : list history := [\n" + ";\n".join(part) + "\n].\n"
         src += "Definition bad := Eval vm_compute in mismatches_for %d cases.\nPrint bad.\n" % prop_code
         path = os.path.join(ctx.run, "%s_%d.v" % (name, k))
         open(path, "w").write(src)
-        procs.append((path, subprocess.Popen(["timeout", "1500", "coqc", "-Q", COQ, "PV", "-w", "none", path], cwd=ctx.run,
-                                             stdout=subprocess.PIPE, stderr=subprocess.STDOUT, text=True)))
+        files.append(path)
     bad = {}
-    for path, p in procs:
+    pending = list(files)
+    running = []
+
+    def reap(path, p):
         out, _ = p.communicate()
         if p.returncode != 0:
             ctx.log("coqc failed on %s:\n%s" % (path, out[-3000:]))
+            for _, q in running:
+                q.kill()
             raise RuntimeError("generated cases file does not check: " + path)
         m = re.search(r"bad\s*=\s*(.*?)\s*:\s*list", out, re.S)
         if not m:
             raise RuntimeError("cannot parse coqc output: " + out[-500:])
         for hid, step, d in re.findall(r"\((\d+),\s*(\d+),\s*(D\w+)\)", m.group(1)):
             bad[int(hid)] = (int(step), d)
+
+    while pending or running:
+        while pending and len(running) < shards:
+            path = pending.pop(0)
+            running.append((path, subprocess.Popen(["timeout", "1500", "coqc", "-Q", COQ, "PV", "-w", "none", path], cwd=ctx.run,
+                                                   stdout=subprocess.PIPE, stderr=subprocess.STDOUT, text=True)))
+        path, p = running.pop(0)
+        reap(path, p)
     return bad
 
 
